@@ -146,7 +146,7 @@ def check(run):
     wcs = {n.args[0].value.lower() for n in walk_local(ph.node) if isinstance(n, ast.Call) and isinstance(n.func, ast.Attribute)
            and n.func.attr == "encode" and n.args and isinstance(n.args[0], ast.Constant)
            and isinstance(n.func.value, ast.Name) and n.func.value.id != ph.params()[0][0]
-           and any(isinstance(a, ast.For) for a in ancestors(n))}
+           and any(isinstance(a, (ast.For, ast.ListComp, ast.GeneratorExp)) for a in ancestors(n))}
     rcs = {n.args[0].value.lower() for n in walk_local(pl.node) if isinstance(n, ast.Call) and isinstance(n.func, ast.Attribute)
            and n.func.attr == "decode" and n.args and isinstance(n.args[0], ast.Constant)}
     ok = wcs == rcs and len(wcs) == 1
